@@ -107,7 +107,7 @@ PROPS["C10"] = dict(
           "same pair). Non-trivial: a function saw >=2 distinct tuples and a tuple was re-evaluated after a failing, held or partially "
           "consumed evaluation or an intervening Generate; distinct = program texts + step sequence."),
     assumptions=PROG_ASSUMPTIONS,
-    jobs=[dict(name="c10", run="^TestPropC10$", kind="rapid", shards=16, checks={"quick": 20000, "thorough": 500000},
+    jobs=[dict(name="c10", run="^TestPropC10$", kind="rapid", shards=16, checks={"quick": 100000, "thorough": 1500000},
                guard={"quick": 900, "thorough": 7200})],
 )
 
@@ -464,7 +464,7 @@ PROPS["C11"] = dict(
           "or closure; distinct = program text + concurrency shape."),
     assumptions=["schedules are sampled; the race detector reports only races that happen in a sampled run",
                  "race reports are attributed to the case announced last before the report"],
-    jobs=[dict(name="c11", run="^TestPropC11$", kind="rapid", race=True, shards=16, checks={"quick": 24000, "thorough": 800000},
+    jobs=[dict(name="c11", run="^TestPropC11$", kind="rapid", race=True, shards=16, checks={"quick": 80000, "thorough": 1500000},
                env={"GORACE": "halt_on_error=0"}, race_reports=True,
                race_known=[{"finding": "F18", "one_side_matches": r"parser2/value\.\(\*List\)\.(Eval|Append)(\(|-|\.)"}],
                guard={"quick": 1200, "thorough": 10800})],
